@@ -348,7 +348,11 @@ def run(ctx):
     for b in bases:
         b = {k: v for k, v in b.items() if not k.startswith("_")}
         mcs_cases += gen_mcs_cases(rng, b, engines)
-    impls = pmap(mcs_case_eval, mcs_cases, ctx.procs)
+    def engine_died(case):
+        # a SAT engine of the installed pysat that kills the interpreter is not a usable engine (third-party native code)
+        ctx.bump(f"mcs:native_crash:{case['engine']}")
+        return ("crash", None)
+    impls = pmap(mcs_case_eval, mcs_cases, ctx.procs, engine_died)
     wants = [parse_sets(r) for r in core.driver_batch([mcs_driver_line(c) for c in mcs_cases])]
     for case, impl, want in zip(mcs_cases, impls, wants):
         ctx.evaluations += 1
@@ -359,7 +363,7 @@ def run(ctx):
             ctx.bump("mcs:with_fixed_tie")
         if len(want) >= 2 or len(want) == 0:
             ctx.nontrivial.add(hash(json.dumps([case["base"], case.get("query"), case.get("lead"), case["side"], case["soft"], case["fix_f"]])))
-        f = mcs_compare(case, impl, want)
+        f = None if impl[0] == "crash" else mcs_compare(case, impl, want)
         if f:
             ctx.failures.append(f)
     ctx.sample({"mcs_case": {k: mcs_cases[-1][k] for k in ("style", "side", "soft", "ignore", "fix_f", "fix_nf", "engine")},
